@@ -1083,7 +1083,11 @@ impl TypeSpace {
                         .and_then(|m| m.default.as_ref())
                         .and_then(|v| v.as_f64())
                     {
-                        if default < *imin || default > *imax {
+                        if default < *imin
+                            || default > *imax
+                            || min.map_or(false, |fmin| default < fmin)
+                            || max.map_or(false, |fmax| default > fmax)
+                        {
                             return Err(Error::InvalidValue);
                         }
                     }
